@@ -59,8 +59,16 @@ func (p *Paragraph) WriteTo(out io.Writer) error {
 	for _, key := range p.Order {
 		value := p.Values[key]
 
-		value = strings.Replace(value, "\n", "\n ", -1)
-		value = strings.Replace(value, "\n \n", "\n .\n", -1)
+		/* One trailing newline is how the reader ends a multi-line value,
+		 * not a line of its own. Every line after the first is indented by
+		 * one space, and an empty one is written as " .". */
+		lines := strings.Split(strings.TrimSuffix(value, "\n"), "\n")
+		for i := 1; i < len(lines); i++ {
+			if lines[i] == "" {
+				lines[i] = "."
+			}
+		}
+		value = strings.Join(lines, "\n ")
 
 		if _, err := out.Write(
 			[]byte(fmt.Sprintf("%s: %s\n", key, value)),
